@@ -830,6 +830,8 @@ class Interp:
     # ------------------------------------------------------------------ iteration
     def iterate(self, v):
         """Concrete-length iteration -> Python list of items."""
+        if isinstance(v, self.lib.LazyFilter):
+            return v.items(self)
         if isinstance(v, (list, tuple)):
             return list(v)
         if isinstance(v, Vec):
